@@ -298,6 +298,10 @@ func checkC09(c *core.Ctx) {
 	tg := &TGen{R: rng}
 	run := func(schema *ast.Schema, sdl string, texts []string) bool {
 		hdr, _ := json.Marshal(map[string]any{"schema": ProjectRSchema(schema)})
+		var schema2 *ast.Schema
+		if l2, s2, crash := loadReal([]*ast.Source{{Name: "schema.graphql", Input: sdl}}); crash == "" && l2.OK {
+			schema2 = s2
+		}
 		var lines [][]byte
 		var events []int64
 		docs := map[int]string{}
@@ -364,6 +368,26 @@ func checkC09(c *core.Ctx) {
 					lines = append(lines, b2)
 					events = append(events, int64(len(facts2)))
 					docs[id] = text + "   [validated with " + sub.name + "]"
+				}
+			}
+			// the same validated tree validated again against ANOTHER instance of the same schema (a schema
+			// reload in front of a document cache): every link leads into the instance validated against last
+			if id%4 == 2 && schema2 != nil {
+				var errs2 gqlerror.List
+				func() {
+					defer guard("validator.Validate against a second instance of the schema", text)()
+					errs2 = validator.Validate(schema2, o.Doc)
+				}()
+				if len(errs2) > 0 {
+					c.Violation(fmt.Sprintf("a valid document is refused when validated again against a second instance of the same schema: %v; document %q", errs2, text), map[string]any{"sdl": sdl, "query": text})
+				} else {
+					tree4, facts4 := projectWithLinks(schema2, o.Doc)
+					id++
+					b4, _ := json.Marshal(map[string]any{"id": id, "doc": gtNorm(tree4), "links": facts4})
+					lines = append(lines, b4)
+					events = append(events, int64(len(facts4)))
+					docs[id] = text + "   [validated against one instance of the schema, then against another]"
+					c.AddExtraInt("documents_revalidated_against_second_instance", 1)
 				}
 			}
 			if len(o.Doc.Fragments) > 0 || len(facts) > 12 {
